@@ -513,8 +513,8 @@ func TestC16(t *testing.T) {
 				// without reconcileFrequency: such an object may be "recognised as defaulted" without ever having been defaulted
 				one, pc := intstr.FromInt(1), int32(250)
 				for ci, c := range canaries[lo:hi] {
-					if full && (lo+ci)%8 != 0 {
-						continue // the thorough canary lattice is 50 times larger: every 8th block gets the cross product
+					if full && (lo+ci)%32 != 0 {
+						continue // the thorough canary lattice is 50 times larger: every 32nd block gets the cross product
 					}
 					for _, tn := range []string{"", "x"} {
 						for _, rf := range []*metav1.Duration{nil, {Duration: 10 * time.Second}} {
